@@ -73,6 +73,12 @@ const PROGRAMS: &[(&str, &str, &str, &str)] = &[
      "(define c7 0) (define (twice x) (* 2 x))",
      "(begin (set! c7 (+ c7 1)) (define-syntax twice (syntax-rules () ((_ x) (quote hijacked)))) (set! c7 (+ c7 10)))",
      "c7 (twice 4)"),
+    // the same for a procedure definition: one the failing form never reaches (or in a form that does not compile)
+    // must not have taken place
+    ("procedure-definition-unreached",
+     "(define c11 0)",
+     "(begin (set! c11 (+ c11 1)) (define (late-proc) (list 'late c11)) (set! c11 (+ c11 10)))",
+     "c11 (late-proc)"),
     ("syntax-definition-in-body",
      "(define c8 0) (define (thrice x) (* 3 x))",
      "((lambda (a) (set! c8 (+ c8 a)) (define-syntax thrice (syntax-rules () ((_ x) (quote hijacked)))) (set! c8 (+ c8 (thrice a)))) 2)",
@@ -521,6 +527,43 @@ fn resources(acc: &mut Acc, case: &Case, k_small: u32, k_large: u32) {
     }
 }
 
+/// k failures that are all different programs: each refers to an unbound variable of its own (what a user's typos at a
+/// REPL look like), or fails to compile in a form of its own. Live heap, global table and stack after many = after few.
+fn distinct_failures(acc: &mut Acc, kind: &str, k_small: u32, k_large: u32) {
+    let measure = |k: u32| -> Option<(usize, usize, usize, usize)> {
+        let mut im = Impl::new();
+        for i in 0..k {
+            let t = match kind {
+                "unbound-variable" => format!("(car (list typo-{}))", i),
+                "unbound-in-procedure" => format!("((lambda (x) (+ x missing-{})) 1)", i),
+                "bad-syntax" => format!("(if (quote sym-{}))", i),
+                _ => format!("(error 'oops-{} \"failed\")", i),
+            };
+            beat(&t);
+            if let ImplOut::Panic(_) = im.eval_text(&t) {
+                return None;
+            }
+        }
+        im.vm.verif_collect_now();
+        let heap = im.vm.verif_heap();
+        Some((im.vm.verif_stack().get_sp(), im.vm.verif_stack().len(), heap.capacity() - heap.verif_free_list().len(), im.vm.global_symbols().len()))
+    };
+    acc.evals += 2;
+    if let (Some(a), Some(b)) = (measure(k_small), measure(k_large)) {
+        acc.nontrivial += 1;
+        if a.0 != b.0 || a.1 != b.1 || b.2 > a.2 + 64 || b.3 > a.3 + 8 {
+            acc.violation(Violation {
+                key: format!("resources|distinct-failures|{}", kind),
+                class: Some(format!("distinct-failures/{}/accumulates", kind)),
+                observed: "failures-accumulate".into(),
+                detail: json!({"session": [format!("{} failing forms, each a different program of kind {}", k_large, kind)],
+                    "sp_stackcapacity_liveheap_globalnames_after_few": [a.0, a.1, a.2, a.3], "after_many": [b.0, b.1, b.2, b.3], "few": k_small, "many": k_large}),
+            });
+        }
+    }
+    beat("");
+}
+
 pub fn run(ctx: &Ctx) -> i32 {
     start_watchdog("C07", 60);
     let mut rep = Report::new("fault_enumeration");
@@ -577,9 +620,12 @@ pub fn run(ctx: &Ctx) -> i32 {
         Acc::merge,
         acc_zero,
     );
-    let acc = Acc::merge(a1, a2);
+    let mut acc = Acc::merge(a1, a2);
+    for kind in ["unbound-variable", "unbound-in-procedure", "bad-syntax", "user-error"] {
+        distinct_failures(&mut acc, kind, k_small, k_large);
+    }
     rep.rule = format!(
-        "{} effectful session programs (global counters, a vector mutated in steps, closure state, map / for-each callbacks, non-tail recursion to depth 1 / 5 / 50, a stored continuation re-entered, a continuation captured 70 frames deep and re-entered after the failure, definition and set! initialisers, eval, apply with a variadic callee, operator position, nested begin / let family) with {} expression positions in total; at every position every fault kind ({:?}) replaces the subexpression, and every program form is also replaced by each read-time fault ({:?}); each faulted form is evaluated once and twice in a row. The session continues with probes of every global, a fixed failing call (pf 3), the probes again and a succeeding form. Oracles: every form's value or failure equals the reference machine's (which aborts to top level keeping the completed effects; compile-time faults must run nothing); last_stacktrace() of (pf 3) equals the fresh-VM trace; sp after the session is the fresh-VM value; and for the deepest position of every form, sp, stack capacity and live heap after {} consecutive failures equal those after {}. Non-trivial = a session in which the injected fault was actually reached.",
+        "{} effectful session programs (global counters, a vector mutated in steps, closure state, map / for-each callbacks, non-tail recursion to depth 1 / 5 / 50, a stored continuation re-entered, a continuation captured 70 frames deep and re-entered after the failure, definition and set! initialisers, eval, apply with a variadic callee, operator position, nested begin / let family) with {} expression positions in total; at every position every fault kind ({:?}) replaces the subexpression, and every program form is also replaced by each read-time fault ({:?}); each faulted form is evaluated once and twice in a row. The session continues with probes of every global, a fixed failing call (pf 3), the probes again and a succeeding form. Oracles: every form's value or failure equals the reference machine's (which aborts to top level keeping the completed effects; compile-time faults must run nothing); last_stacktrace() of (pf 3) equals the fresh-VM trace; sp after the session is the fresh-VM value; and for the deepest position of every form, sp, stack capacity and live heap after {} consecutive failures equal those after {}; the same after as many failing forms that are all different programs (an unbound variable of its own each, at top level and inside a procedure; a syntax error and a user error mentioning a symbol of its own), where the number of global names is compared too. Non-trivial = a session in which the injected fault was actually reached.",
         PROGRAMS.len(), n_positions, FAULTS.iter().map(|f| f.0).collect::<Vec<_>>(), READ_FAULTS.iter().map(|f| f.0).collect::<Vec<_>>(), k_large, k_small
     );
     rep.extra("fault_sessions", json!(n));
